@@ -240,11 +240,11 @@ def obligations(tier):
         for hist in c10_objects.HISTORIES:
             if kind == "SequenceCollection" and hist in ("slice", "slice_rc"):
                 continue
-            obs.append(Ob(f"objects/{kind}/{hist}", "props.c10_objects", "mk_object", {"kind": kind, "history": hist, "nsym": 3 - (1 if hist.startswith("slice") else 0)}, timeout=1800, group="objects"))
+            obs.append(Ob(f"objects/{kind}/{hist}", "props.c10_objects", "mk_object", {"kind": kind, "history": hist, "nsym": 3 - (1 if hist.startswith("slice") else 0)}, timeout=1800, group="objects", grade="realised-input"))
     for hist in c10_objects.TABLE_HISTORIES:
-        obs.append(Ob(f"objects/Table/{hist}", "props.c10_objects", "mk_table_object", {"history": hist}, timeout=1800, group="objects"))
+        obs.append(Ob(f"objects/Table/{hist}", "props.c10_objects", "mk_table_object", {"history": hist}, timeout=1800, group="objects", grade="realised-input"))
     for kind in ("DictArray", "DistanceMatrix"):
-        obs.append(Ob(f"objects/{kind}", "props.c10_objects", "mk_dictarray_object", {"kind": kind}, timeout=900, group="objects"))
+        obs.append(Ob(f"objects/{kind}", "props.c10_objects", "mk_dictarray_object", {"kind": kind}, timeout=900, group="objects", grade="realised-input"))
     return obs
 
 
